@@ -34,8 +34,10 @@ class UserDeleteNode(ActionGroup):
         """
         super().__init__(tracks, actions=[])
         self.tracks: SolutionTracks  # Narrow type from base class
+        predecessors = self.tracks.predecessors(node)
+        successors = self.tracks.successors(node)
         # delete adjacent edges
-        for pred in self.tracks.predecessors(node):
+        for pred in predecessors:
             siblings = self.tracks.successors(pred)
             # if you are deleting the first node after a division, relabel
             # the track id of the other child to match the parent
@@ -46,7 +48,7 @@ class UserDeleteNode(ActionGroup):
                 new_track_id = self.tracks.get_track_id(pred)
                 self.actions.append(UpdateTrackIDs(tracks, sib, new_track_id))
             self.actions.append(DeleteEdge(tracks, (pred, node)))
-        for succ in self.tracks.successors(node):
+        for succ in successors:
             self.actions.append(DeleteEdge(tracks, (node, succ)))
 
         # connect child and parent in track, if applicable
@@ -56,6 +58,20 @@ class UserDeleteNode(ActionGroup):
             predecessor, successor = self.tracks.get_track_neighbors(track_id, time)
             if predecessor is not None and successor is not None:
                 self.actions.append(AddEdge(tracks, (predecessor, successor)))
+                successors = [succ for succ in successors if succ != successor]
+
+        # every child that is now cut off from the rest of its lineage starts a new
+        # lineage (if the deleted node was a root, one child keeps the lineage id)
+        detached = successors if len(predecessors) > 0 else successors[1:]
+        for succ in detached:
+            self.actions.append(
+                UpdateTrackIDs(
+                    tracks,
+                    succ,
+                    self.tracks.get_track_id(succ),
+                    self.tracks.get_next_lineage_id(),
+                )
+            )
 
         # delete node
         self.actions.append(DeleteNode(tracks, node, pixels=pixels))
